@@ -910,4 +910,67 @@ theorem limbTail_refines (d0 : Nat) (rest : List Nat) (msp lsp : Int) (d : Dbl)
       omega
     exact limbRun_refines A0 u rsMax _ _ d g hu (B_pos lsp) a5 hr1 hr2 Hhi h
 
+
+/-! ### to_double: limb level = exact level -/
+
+/-- **toDoubleLimbs refines toDoubleBig** (∀ digit strings with digits ≤ 9, ∀ scales): whenever the limb-level run
+    stays inside its work array, it returns what the exact-arithmetic level returns -/
+theorem toDoubleLimbs_refines (ds0 : List Nat) (scale : Int) (d : Dbl) (hdig : ∀ x ∈ ds0, x ≤ 9)
+    (h : toDoubleLimbs ds0 scale = some d) : d = toDoubleBig ds0 scale := by
+  unfold toDoubleLimbs at h
+  unfold toDoubleBig
+  simp only at h ⊢
+  rcases CifModel.Lemmas.NumbWindow.dropWhile_zero_head ds0 with h0 | ⟨d0, r, h0, hd0⟩
+  · rw [h0] at h ⊢
+    simp only [if_true, Option.some.injEq] at h ⊢
+    exact h.symm
+  · rw [h0] at h ⊢
+    have hne : ¬ (d0 :: r = []) := by simp
+    simp only [hne, if_false] at h ⊢
+    have hdig1 : ∀ x ∈ d0 :: r, x ≤ 9 :=
+      fun x hx => hdig x (CifModel.Lemmas.NumbWindow.mem_dropWhile _ ds0 x (by rw [h0]; exact hx))
+    obtain ⟨r', t, hsig, hdec, _⟩ := CifModel.Lemmas.NumbWindow.trail_decomp d0 r hd0
+    rw [hsig] at h ⊢
+    have hlenr : r.length = r'.length + t := by
+      have := congrArg List.length hdec
+      simp only [List.length_cons, List.length_append, List.length_replicate] at this
+      omega
+    have hdig2 : ∀ x ∈ d0 :: r', x ≤ 9 := by
+      intro x hx
+      apply hdig1 x
+      rw [hdec]; exact List.mem_append_left _ hx
+    simp only [List.length_cons, List.headD_cons] at h ⊢
+    generalize hmsp : -scale + ((r.length + 1 - 1 : Nat) : Int) = msp at *
+    generalize hlsp1 : -scale + ((r.length + 1 - (r'.length + 1) : Nat) : Int) = lsp1 at *
+    by_cases hhi : msp > DBL_MAX_10_EXP
+    · simp only [hhi, if_true, Option.some.injEq] at h ⊢
+      exact h.symm
+    · simp only [hhi, if_false] at h ⊢
+      by_cases hlo : msp ≤ DBL_MIN_10_EXP - ((DBL_DIG : Nat) : Int)
+      · simp only [hlo, if_true, Option.some.injEq] at h ⊢
+        exact h.symm
+      · simp only [hlo, if_false] at h ⊢
+        have hm1 : msp ≤ 308 := by unfold DBL_MAX_10_EXP at hhi; omega
+        have hm2 : -322 < msp := by unfold DBL_MIN_10_EXP DBL_DIG at hlo; omega
+        rw [num_uniform, den_uniform, num_uniform, den_uniform]
+        by_cases hlong : msp - lsp1 ≥ ((CIF_LINE_LENGTH : Nat) : Int)
+        · -- truncated to a line's worth of digits
+          simp only [hlong, decide_true, if_true] at h ⊢
+          have htk : (d0 :: r').take CIF_LINE_LENGTH = d0 :: r'.take (CIF_LINE_LENGTH - 1) := by
+            unfold CIF_LINE_LENGTH; rfl
+          rw [htk] at h ⊢
+          apply limbTail_refines d0 (r'.take (CIF_LINE_LENGTH - 1)) msp (1 + msp - ((CIF_LINE_LENGTH : Nat) : Int)) d (by omega)
+            (fun x hx => hdig2 x (by
+              rw [List.mem_cons] at hx ⊢
+              rcases hx with e | e
+              · exact Or.inl e
+              · exact Or.inr (List.mem_of_mem_take e))) _ hm1 hm2 h
+          simp only [List.length_cons, List.length_take]
+          unfold CIF_LINE_LENGTH at hlong ⊢
+          omega
+        · simp only [hlong, decide_false, Bool.false_eq_true, if_false] at h ⊢
+          apply limbTail_refines d0 r' msp lsp1 d (by omega) hdig2 _ hm1 hm2 h
+          simp only [List.length_cons]
+          omega
+
 end CifModel.Lemmas.NumbLimbRefine
